@@ -794,7 +794,7 @@ class C28(Prop):
     extra_obligations = ['oracle: original vs really inlined program on generated inputs']
 
     def classes(self):
-        return [c for c, _ in CLASSES] + FUN_CLASSES + PARAM_CLASSES
+        return [c for c, _ in CLASSES] + FUN_CLASSES + PARAM_CLASSES + SEC_CLASSES
 
     # ---- generation
     def gen(self, rng, tier):
@@ -827,13 +827,18 @@ class C28(Prop):
             gf = tier == 'thorough' and j % 5 == 0
             yield Case([A('param'), prog, inputs, A('gf' if gf else 'nogf')], stream='param',
                        nontrivial=any(h(d[5]) is not None for u in units(prog) for d in u[3]))
-        if tier != 'quick':
-            for j in range({'thorough': 24, 'search': 12}.get(tier, 0)):
-                yield Case(gen_fun_request(rng), stream='fun')
+        # function inlining and section actuals: gfortran runs of the original text vs Loki's fgen of the transformed routine
+        n_fun = {'quick': 3, 'thorough': 24, 'search': 12}.get(tier, 3)
+        for j in range(n_fun):
+            clash = ('upper', 'mixed', 'lower')[j % 3] if (tier == 'quick' or j % 2 == 0) else None
+            yield Case(gen_fun_request(rng, clash=clash), stream='fun')
+        n_sec = {'quick': 3, 'thorough': 16, 'search': 10}.get(tier, 3)
+        for j in range(n_sec):
+            yield Case(gen_sec_request(rng, force_diff=(j % 2 == 0)), stream='sec')
 
     # ---- real code
     def impl(self, req):
-        if str(req[0]) == 'fun':
+        if str(req[0]) in ('fun', 'sec'):
             return [A('result'), A('oracle-only')]
         kind, mode, prog, inputs, flag = decode(req)
         if kind == 'param':
@@ -870,6 +875,8 @@ class C28(Prop):
     def oracle(self, req):
         if str(req[0]) == 'fun':
             return fun_oracle(req)
+        if str(req[0]) == 'sec':
+            return sec_oracle(req)
         kind, mode, prog, inputs, flag = decode(req)
         if kind == 'param':
             cls = param_class(prog)
@@ -987,42 +994,66 @@ def param_class(prog):
 # ---------------------------------------------------------------- functions (direct oracle only, thorough tier)
 
 FUN_CLASSES = ['fun-result-conversion', 'fun-intrinsic-call']
+SEC_CLASSES = ['inline-section-lower-zero']
 
 
-def gen_fun_request(rng):
-    kind = rng.choice(('stmt', 'stmt', 'contained', 'elemental'))
+def _class_listed(cls):
+    """a class is generated on purpose only once it is listed as an open finding (otherwise the clean tree would report a
+    VIOLATION for a defect that is merely not merged into known_findings.json yet)"""
+    from ..core import load_known
+    return any(k.get('property') == 'C28' and k.get('class') == cls and k.get('status', 'open') == 'open' for k in load_known())
+
+
+
+def gen_fun_request(rng, clash=None):
+    """`clash`: the function's local variable is spelled like a caller variable that is live across the call (in upper / mixed /
+    lower case in the callee, lower case in the caller): exercises the a-priori renaming of clashing locals"""
+    kind = rng.choice(('stmt', 'stmt', 'contained', 'elemental')) if clash is None else rng.choice(('contained', 'elemental'))
     a, b, c = rng.randint(-4, 6), rng.randint(1, 5), rng.randint(-3, 3)
-    conv = rng.random() < 0.2
-    variant = rng.randint(0, 3)
-    return [A('fun'), A(kind), a, b, c, A('conv' if conv else 'same'), variant]
+    conv = clash is None and rng.random() < 0.2 and _class_listed('fun-result-conversion')
+    variant = rng.randint(0, 3) if clash is None else rng.randint(0, 2)
+    req = [A('fun'), A(kind), a, b, c, A('conv' if conv else 'same'), variant]
+    if clash is not None:
+        req.append(A(clash))
+    return req
 
 
-def fun_source(kind, a, b, c, conv, variant):
+def fun_source(kind, a, b, c, conv, variant, clash='none'):
     """(module text, kernel name): integer function f(u, v) used inside larger expressions of subroutine kernel(k, x, r)"""
     fty = 'real' if conv else 'integer'
+    loc = {'none': 't', 'upper': 'ZT', 'mixed': 'Zt', 'lower': 'zt'}[clash]
     body_expr = ['u + v * 2', 'u * v - 1', '(u - v) * 3', 'mod(u, 5) + v'][variant]
     use = [f'r(1) = f(k, {b}) * 2 + f({a}, k)', f'r(2) = 7 - f(k + ({c}), {b})', f'r(3) = f(f(k, 1), {b})',
-           f'r(4) = r(1) / f({b}, 1) + int(x)']
+           f'r(4) = r(1) / (f({b}, 1) * f({b}, 1) + 1) + int(x)']
     if kind == 'stmt':
         decl = [f'  {fty} :: f', '  integer :: u, v', f'  f(u, v) = {body_expr}']
         contains = []
     else:
         decl = []
         pre = 'elemental ' if kind == 'elemental' else ''
-        contains = ['contains', f'  {pre}function f(u, v)', f'    {fty} :: f', '    integer, intent(in) :: u, v', '    integer :: t',
-                    f'    t = {body_expr}', '    f = t', '  end function f']
+        contains = ['contains', f'  {pre}function f(u, v)', f'    {fty} :: f', '    integer, intent(in) :: u, v', f'    integer :: {loc}',
+                    f'    {loc} = {body_expr}', f'    f = {loc}', '  end function f']
     if conv:
         use = [f'r(1) = int(f(k, {b}) / 2) + k', f'r(2) = int(f({a}, k) / 4 * 2)', 'r(3) = 0', 'r(4) = int(x)']
+    pre_use = []
+    if clash != 'none':
+        decl = decl + ['  integer :: zt']
+        pre_use = ['zt = 10 * k + 3']
+        use = [use[0] + ' + zt', use[1], use[2] + ' - zt', use[3]]
     mod = ['module fmod', 'implicit none', 'contains', 'subroutine kernel(k, x, r)', '  integer, intent(in) :: k', '  real, intent(in) :: x',
-           '  integer, intent(out) :: r(4)'] + decl + ['  ' + l for l in use] + contains + ['end subroutine kernel', 'end module fmod']
+           '  integer, intent(out) :: r(4)'] + decl + ['  ' + l for l in pre_use + use] + contains + ['end subroutine kernel', 'end module fmod']
     return '\n'.join(mod) + '\n'
 
 
 def fun_oracle(req):
     import subprocess, tempfile, os
     kind, a, b, c, conv, variant = str(req[1]), int(str(req[2])), int(str(req[3])), int(str(req[4])), str(req[5]) == 'conv', int(str(req[6]))
+    clash = str(req[7]) if len(req) > 7 else 'none'
+    if kind not in ('stmt', 'contained', 'elemental') or clash not in ('none', 'upper', 'mixed', 'lower') or len(req) > 8 \
+            or not 0 <= variant <= 3:
+        raise ValueError('malformed request')
     cls = 'fun-result-conversion' if conv else 'fun-intrinsic-call' if (kind == 'contained' and variant == 3) else None
-    src = fun_source(kind, a, b, c, conv, variant)
+    src = fun_source(kind, a, b, c, conv, variant, clash)
     from loki import Sourcefile, fgen
     from loki.frontend import FP
     from loki.transformations.inline import inline_statement_functions, inline_functions, inline_elemental_functions
@@ -1039,22 +1070,15 @@ def fun_oracle(req):
     except Exception as e:
         return [Failure(f'function inlining ({kind}) raised {type(e).__name__}: {str(e)[:120]}', cls)]
     drv = '\n'.join(['program p', 'use fmod', 'implicit none', 'integer :: r(4), k', 'do k = -3, 6', '  r = -777',
-                     '  call kernel(k, 2.5d0 * k, r)', '  print *, r', 'end do', 'end program p']) + '\n'
-    outs = []
-    with tempfile.TemporaryDirectory() as d:
-        for tag, t in (('o', src), ('t', text)):
-            f = os.path.join(d, tag + '.f90')
-            with open(f, 'w') as fh:
-                fh.write(t + '\n' + drv)
-            p = subprocess.run([fir.GFORTRAN] + fir.GFORTRAN_FLAGS + ['-J', d, '-o', os.path.join(d, tag), f],
-                               stdout=subprocess.PIPE, stderr=subprocess.STDOUT, text=True, timeout=120, cwd=d)
-            if p.returncode != 0:
-                if tag == 'o':
-                    return []
-                return [Failure(f'function inlining ({kind}): gfortran rejects the transformed code: {p.stdout.strip()[:160]}', cls)]
-            q = subprocess.run([os.path.join(d, tag)], stdout=subprocess.PIPE, stderr=subprocess.STDOUT, text=True, timeout=60)
-            outs.append(q.stdout.split())
-    if outs[0] != outs[1]:
+                     '  call kernel(k, 2.5 * k, r)', '  print *, r', 'end do', 'end program p']) + '\n'
+    res = _compile_run([src, text], drv)
+    if res[0][0] == 'compile-error':
+        raise RuntimeError('harness bug: the generated original does not compile: ' + str(res[0][1])[:200])
+    if res[0][0] != 'ok':
+        return []
+    if res[1][0] != 'ok':
+        return [Failure(f'function inlining ({kind}): transformed code fails under gfortran ({res[1][0]}): {str(res[1][1])[:160]}', cls)]
+    if res[0][1] != res[1][1]:
         return [Failure(f'function inlining ({kind}): transformed program prints different values', cls)]
     return []
 
@@ -1070,8 +1094,8 @@ def gen_sec_request(rng, force_diff=False):
             continue
         n1, n2 = rng.randint(2, 3), rng.randint(2, 3)
         s1, s2 = l1 + rng.randint(0, 2), l2 + rng.randint(0, 2)
-        if s1 == 0 or s2 == 0:
-            continue          # a literal 0 lower bound is taken for "no lower bound" (truthiness test): reported, not generated
+        if (s1 == 0 or s2 == 0) and not _class_listed('inline-section-lower-zero'):
+            continue          # a literal 0 lower bound is taken for "no lower bound" (truthiness test): class inline-section-lower-zero
         u1, u2 = s1 + n1 - 1 + rng.randint(0, 1), s2 + n2 - 1 + rng.randint(0, 1)
         cl1, cl2 = rng.choice((1, 1, 1, 0, 2, -1)), rng.choice((1, 1, 1, 0, 2, -1))
         mode = rng.choice(('internal', 'marked'))
@@ -1136,21 +1160,32 @@ def sec_transform(req):
     return src, fgen(sf.ir), pars
 
 
+def sec_class(pars):
+    l1, u1, l2, u2, s1, n1, s2, n2 = pars[:8]
+    if (s1 == 0 and l1 != 0) or (s2 == 0 and l2 != 0):
+        return 'inline-section-lower-zero'
+    return None
+
+
 def sec_oracle(req):
+    cls = None
     try:
+        cls = sec_class([int(str(x)) for x in req[2:13]])
         src, text, pars = sec_transform(req)
     except ValueError:
         raise
     except Exception as e:
-        return [Failure(f'inlining with a section actual raised {type(e).__name__}: {str(e)[:120]}', None)]
+        return [Failure(f'inlining with a section actual raised {type(e).__name__}: {str(e)[:120]}', cls)]
     l1, u1, l2, u2 = pars[:4]
     res = _compile_run([src, text], sec_driver(l1, u1, l2, u2))
+    if res[0][0] == 'compile-error':
+        raise RuntimeError('harness bug: the generated original does not compile: ' + str(res[0][1])[:200])
     if res[0][0] != 'ok':
         return []
     if res[1][0] != 'ok':
-        return [Failure(f'inlining with a section actual: transformed code fails under gfortran ({res[1][0]}): {str(res[1][1])[:120]}', None)]
+        return [Failure(f'inlining with a section actual: transformed code fails under gfortran ({res[1][0]}): {str(res[1][1])[:120]}', cls)]
     if res[0][1] != res[1][1]:
-        return [Failure('inlining with a section actual: transformed program computes different array contents (gfortran)', None)]
+        return [Failure('inlining with a section actual: transformed program computes different array contents (gfortran)', cls)]
     return []
 
 
